@@ -1,8 +1,230 @@
+/-
+  driver_deribit — JSON protocol around Demeter.Deribit.
+  `{"fn":"step","cfg":"ETH"|"BTC","ctx":"py"|"exact","float":"ieee"|"ideal","state":{…},"op":{…}}`
+  → `{"outcome":"ok"|<exception class>,"cause":…,"result":…,"state":{…},"actions":[…]}`
+  `{"fn":"bars", …, "state":{…}, "bars":[{"now","flagOpen","book","price","ops":[…]}]}` → per-bar states (C16).
+-/
 import Demeter.Drv.Json
+import Demeter.Deribit
+import Demeter.Deribit.Run
 namespace Demeter.Drv
-open Demeter Lean
+open Demeter Demeter.Deribit Lean
+
+namespace DeribitJ
+
+def optRat (j : Json) (k : String) : Except String (Option Rat) :=
+  match jOpt j k with
+  | none => pure none
+  | some v => do let r ← jRatOf v; pure (some r)
+
+def kindOf (s : String) : Except String Kind :=
+  if s = "CALL" then pure .call else if s = "PUT" then pure .put else throw s!"kind {s}"
+def kindJ : Kind → Json
+  | .call => .str "CALL"
+  | .put => .str "PUT"
+
+def levelOf (v : Json) : Except String Level :=
+  match v with
+  | .arr #[p, s, .bool f] => do
+    let p ← jRatOf p; let s ← jRatOf s
+    pure { price := p, size := s, isFloat := f }
+  | _ => throw s!"level: {v.compress}"
+def levelJ (l : Level) : Json := .arr #[ratJ l.price, ratJ l.size, .bool l.isFloat]
+
+def levelsOf (j : Json) (k : String) : Except String (List Level) := do
+  let a ← jArr j k
+  a.toList.mapM levelOf
+
+def instrOf (j : Json) : Except String Instr := do
+  let name ← jStr j "name"
+  let o ← jBool j "open"
+  let kind ← kindOf (← jStr j "kind")
+  let strike ← jRat j "strike"
+  let expiry ← jInt j "expiry"
+  let mark ← jRat j "mark"
+  let under ← jRat j "underlying"
+  let delta ← jRat j "delta"
+  let gamma ← jRat j "gamma"
+  let asks ← levelsOf j "asks"
+  let bids ← levelsOf j "bids"
+  pure { name := name, stateOpen := o, kind := kind, strike := strike, expiry := expiry, mark := mark,
+         underlying := under, delta := delta, gamma := gamma, asks := asks, bids := bids }
+
+def instrJ (i : Instr) : Json :=
+  Json.mkObj [("name", .str i.name), ("open", .bool i.stateOpen), ("kind", kindJ i.kind), ("strike", ratJ i.strike),
+    ("expiry", intJ i.expiry), ("mark", ratJ i.mark), ("underlying", ratJ i.underlying), ("delta", ratJ i.delta),
+    ("gamma", ratJ i.gamma), ("asks", .arr (i.asks.map levelJ).toArray), ("bids", .arr (i.bids.map levelJ).toArray)]
+
+def posOf (j : Json) : Except String (String × Position) := do
+  let key ← jStr j "key"
+  let name ← jStr j "name"
+  let expiry ← jInt j "expiry"
+  let strike ← jRat j "strike"
+  let kind ← kindOf (← jStr j "kind")
+  let amount ← jRat j "amount"
+  let avgBuy ← jRat j "avgBuy"
+  let buyAmt ← jRat j "buyAmt"
+  let avgSell ← jRat j "avgSell"
+  let sellAmt ← jRat j "sellAmt"
+  pure (key, { name := name, expiry := expiry, strike := strike, kind := kind, amount := amount, avgBuy := avgBuy,
+               buyAmt := buyAmt, avgSell := avgSell, sellAmt := sellAmt })
+
+def posJ (kp : String × Position) : Json :=
+  let p := kp.2
+  Json.mkObj [("key", .str kp.1), ("name", .str p.name), ("expiry", intJ p.expiry), ("strike", ratJ p.strike),
+    ("kind", kindJ p.kind), ("amount", ratJ p.amount), ("avgBuy", ratJ p.avgBuy), ("buyAmt", ratJ p.buyAmt),
+    ("avgSell", ratJ p.avgSell), ("sellAmt", ratJ p.sellAmt)]
+
+def balOf (j : Json) : Except String Balance := do
+  pure { netValue := ← jRat j "netValue", cash := ← jRat j "cash", premium := ← jRat j "premium",
+         delta := ← jRat j "delta", gamma := ← jRat j "gamma" }
+def balJ (b : Balance) : Json :=
+  Json.mkObj [("netValue", ratJ b.netValue), ("cash", ratJ b.cash), ("premium", ratJ b.premium),
+    ("delta", ratJ b.delta), ("gamma", ratJ b.gamma)]
+def optBalJ : Option Balance → Json
+  | none => .null
+  | some b => balJ b
+
+def walletOf (j : Json) (k : String) : Except String Wallet := do
+  let a ← jArr j k
+  a.toList.mapM (fun v => match v with
+    | .arr #[.str t, b] => do let b ← jRatOf b; pure (t, b)
+    | _ => throw s!"wallet entry {v.compress}")
+def walletJ (w : Wallet) : Json := .arr (w.map (fun (t, b) => Json.arr #[.str t, ratJ b])).toArray
+
+def bookOf (j : Json) (k : String) : Except String (List Instr) := do
+  let a ← jArr j k
+  a.toList.mapM instrOf
+
+def stateOf (j : Json) : Except String DState := do
+  let cash ← jRat j "cash"
+  let ps ← jArr j "positions"
+  let positions ← ps.toList.mapM posOf
+  let book ← bookOf j "book"
+  let wallet ← walletOf j "wallet"
+  let allowNeg ← jBool j "allowNeg"
+  let cache ← match jOpt j "cache" with
+    | none => pure none
+    | some c => do let b ← balOf c; pure (some b)
+  let flagOpen ← jBool j "flagOpen"
+  let now ← jInt j "now"
+  let price ← jRat j "price"
+  pure { cash := cash, positions := positions, book := book, wallet := wallet, allowNeg := allowNeg, actions := [],
+         cache := cache, flagOpen := flagOpen, now := now, price := price }
+
+def stateJ (s : DState) : Json :=
+  Json.mkObj [("cash", ratJ s.cash), ("positions", .arr (s.positions.map posJ).toArray),
+    ("book", .arr (s.book.map instrJ).toArray), ("wallet", walletJ s.wallet), ("allowNeg", .bool s.allowNeg),
+    ("cache", optBalJ s.cache), ("flagOpen", .bool s.flagOpen), ("now", intJ s.now), ("price", ratJ s.price)]
+
+def fillJ (f : Fill) : Json := .arr #[ratJ f.price, ratJ f.amount]
+
+def tradeJ (t : String) (r : TradeRec) : Json :=
+  Json.mkObj [("type", .str t), ("name", .str r.name), ("kind", kindJ r.kind), ("avgPrice", ratJ r.avgPrice),
+    ("amount", ratJ r.amount), ("premium", ratJ r.premium), ("mark", ratJ r.markD), ("underlying", ratJ r.underD),
+    ("fee", ratJ r.fee), ("orders", .arr (r.orders.map fillJ).toArray)]
+
+def settleFields (r : SettleRec) : List (String × Json) :=
+  [("name", .str r.name), ("kind", kindJ r.kind), ("mark", ratJ r.markR), ("amount", ratJ r.amount),
+   ("premium", ratJ r.premium), ("strike", ratJ r.strike), ("underlying", ratJ r.underR)]
+
+def actionJ : Action → Json
+  | .buy r => tradeJ "buy" r
+  | .sell r => tradeJ "sell" r
+  | .deposit t a => Json.mkObj [("type", .str "deposit"), ("token", .str t), ("amount", ratJ a)]
+  | .withdraw t a => Json.mkObj [("type", .str "withdraw"), ("token", .str t), ("amount", ratJ a)]
+  | .deliver r d f i => Json.mkObj ([("type", .str "deliver")] ++ settleFields r ++
+      [("deliverAmount", ratJ d), ("fee", ratJ f), ("income", ratJ i)])
+  | .expired r => Json.mkObj ([("type", .str "expired")] ++ settleFields r)
+
+def reqOf (j : Json) : Except String Req := do
+  pure { name := ← jStr j "name", amount := ← jRat j "amount", priceTok := ← optRat j "priceTok",
+         priceUsd := ← optRat j "priceUsd", mult := ← optRat j "mult" }
+
+def opOf (j : Json) : Except String Op := do
+  let t ← jStr j "type"
+  match t with
+  | "buy" => do pure (.buy (← reqOf j))
+  | "sell" => do pure (.sell (← reqOf j))
+  | "deposit" => do pure (.deposit (← jRat j "amount"))
+  | "withdraw" => do pure (.withdraw (← jRat j "amount"))
+  | "balance" => pure .balance
+  | "update" => pure .update
+  | _ => throw s!"op type {t}"
+
+def resJ : Res → Json
+  | .trade fs fee => Json.mkObj [("fills", .arr (fs.map fillJ).toArray), ("fee", ratJ fee)]
+  | .cashR v => ratJ v
+  | .balance b => optBalJ b
+  | .unit => .null
+
+def cfgOf (j : Json) : TokenCfg :=
+  match j.getObjVal? "cfg" with
+  | .ok (.str "BTC") => btcCfg
+  | _ => ethCfg
+
+def dctxOf (j : Json) : DCtx :=
+  let n := jCtx j
+  match j.getObjVal? "float" with
+  | .ok (.str "ideal") => DCtx.ideal n
+  | _ => DCtx.ieee n
+
+def answer (o : Outcome) (s : DState) : Json :=
+  let (oc, cause, res) : String × String × Json :=
+    match o with
+    | .ok r => ("ok", "", resJ r)
+    | .error e => (e.cls, e.cause, .null)
+  Json.mkObj [("outcome", .str oc), ("cause", .str cause), ("result", res), ("state", stateJ s),
+    ("actions", .arr (s.actions.map actionJ).toArray)]
+
+def stepH : JHandler := fun j => do
+  let s ← stateOf (← jObj j "state")
+  let op ← opOf (← jObj j "op")
+  let (o, s') := step (dctxOf j) (cfgOf j) s op
+  pure (answer o s')
+
+/-- C16: the bar loop.  Each bar: `{"now","flagOpen","book","price","ops":[…]}` -/
+def barOf (j : Json) : Except String Bar := do
+  let now ← jInt j "now"
+  let fo ← jBool j "flagOpen"
+  let book ← bookOf j "book"
+  let price ← jRat j "price"
+  let ops ← (← jArr j "ops").toList.mapM opOf
+  pure { now := now, flagOpen := fo, book := book, price := price, ops := ops }
+
+def barsH : JHandler := fun j => do
+  let s ← stateOf (← jObj j "state")
+  let bars ← (← jArr j "bars").toList.mapM barOf
+  let cx := dctxOf j
+  let c := cfgOf j
+  -- per bar: outcomes of the ops, state after update, reported balance
+  let rec go (s : DState) (bs : List Bar) (acc : Array Json) : Array Json :=
+    match bs with
+    | [] => acc
+    | b :: bs =>
+      let r := runBar cx c s b
+      let item := Json.mkObj [("outcomes", .arr (r.outcomes.map (fun o => match o with
+                      | .ok _ => Json.str "ok"
+                      | .error e => Json.str e.cls)).toArray),
+                    ("state", stateJ r.state), ("actions", .arr (r.state.actions.map actionJ).toArray),
+                    ("balance", optBalJ r.balance)]
+      go { r.state with actions := [] } bs (acc.push item)
+  pure (Json.mkObj [("bars", .arr (go s bars #[]))])
+
+/-- `round_decimal`, `repr` helpers exposed for direct differential tests -/
+def roundDecH : JHandler := fun j => do
+  let e ← jInt j "exp"
+  let x ← jRat j "x"
+  pure (ratJ (roundDec e x))
+
+def reprH : JHandler := fun j => do
+  let x ← jRat j "x"
+  pure (ratJ (shortestRepr x))
+
+end DeribitJ
 
 def deribitHandlers : List (String × Handler) := []
-def deribitJHandlers : List (String × JHandler) := []
+def deribitJHandlers : List (String × JHandler) :=
+  [("step", DeribitJ.stepH), ("bars", DeribitJ.barsH), ("roundDec", DeribitJ.roundDecH), ("repr", DeribitJ.reprH)]
 
 end Demeter.Drv
